@@ -65,6 +65,9 @@ func (s *syncStore[H]) Append(ctx context.Context, headers ...H) error {
 	//	However, Syncer has yet to be refactored to not assume those invariants and until then
 	//	this method is a shim that allows using store with old assumptions.
 	//  To be reworked by bsync.
+
+	// the cached head as it is now, to take a move back if the Store refuses the batch
+	prev := s.head.Load()
 	if headers[0].Height() >= head.Height() {
 		for _, h := range headers {
 			if h.Height() != head.Height()+1 {
@@ -81,6 +84,9 @@ func (s *syncStore[H]) Append(ctx context.Context, headers ...H) error {
 	}
 
 	if err := s.Store.Append(ctx, headers...); err != nil {
+		// nothing was handed to the Store: the cached head must not stay on headers that are not there
+		// (the swap does nothing unless the cache still holds what was stored above)
+		s.head.CompareAndSwap(&head, prev)
 		return err
 	}
 
